@@ -116,6 +116,9 @@ def synthetic_db(rng, text):
 
 
 # ------------------------------------------------------------------------------------------------ real runs
+BIG_SETS = [["CO2(g)", "H2O(g)", "NH3(g)", "H2S(g)"], ["CO2(g)", "CH4(g)", "N2(g)", "H2S(g)", "H2O(g)", "NH3(g)"],
+            ["H2O(g)", "NH3(g)", "H2S(g)"], ["Mtg(g)", "Ntg(g)", "H2Sg(g)", "CO2(g)", "H2O(g)"], ["N2(g)", "O2(g)", "CO2(g)", "H2O(g)", "NH3(g)"],
+            ["Hdg(g)", "Mtg(g)", "Ntg(g)", "Oxg(g)", "H2Sg(g)", "CO2(g)"]]
 PR_SETS = [
     ["CO2(g)"], ["CO2(g)", "H2O(g)"], ["CH4(g)"], ["CH4(g)", "H2O(g)"], ["N2(g)", "O2(g)", "CO2(g)"],
     ["CO2(g)", "Mtg(g)", "Ntg(g)", "H2O(g)"], ["CO2(g)", "H2S(g)"], ["H2Sg(g)", "CO2(g)", "H2O(g)"],
@@ -147,8 +150,8 @@ def solution_block(rng, tc, pres, db):
 
 
 def punch_block(gases, extra=()):
-    heads = ["step", "gas_p", "gas_vm", "tk", "pres"]
-    items = ["STEP_NO", "GAS_P", "GAS_VM", "TK", "PRESSURE"]
+    heads = ["step", "sim", "gas_p", "gas_vm", "tk", "pres"]
+    items = ["STEP_NO", "SIM_NO", "GAS_P", "GAS_VM", "TK", "PRESSURE"]
     for i, g in enumerate(gases):
         heads += [f"n{i}", f"pp{i}", f"phi{i}", f"si{i}"]
         items += [f'GAS("{g}")', f'PR_P("{g}")', f'PR_PHI("{g}")', f'SI("{g}")']
@@ -288,10 +291,61 @@ def kij_case(rng, hist):
     return case
 
 
+def history_case(rng, hist):
+    """several simulations in one run on the same instance: the gas phase is redefined (other type, pressure, volume,
+    temperature) or carried over with SAVE/USE, with one to three reaction steps each; the solution is saved and reused"""
+    gases = list(rng.choice(PR_SETS + BIG_SETS))
+    nsim = rng.randint(2, 4)
+    tc = rng.uniform(5, 150)
+    lines, sims = [], []
+    pl, heads = punch_block(gases)
+    prev = None
+    for k in range(nsim):
+        if k == 0:
+            lines += ["SOLUTION 1", f" temp {tc:.3f}", " pH 7", " units mol/kgw", f" Na {rng.choice([0.01, 0.1, 1.0])}", " Cl 0.1 charge"]
+        else:
+            lines += ["USE solution 1"]
+        if k > 0 and prev is not None and rng.random() < 0.35:
+            lines += ["USE gas_phase 1"]                       # carried over as saved
+            cx = dict(prev)
+        else:
+            kind = rng.choice(["fixedV", "fixedP"])
+            ptot = float(f"{10 ** rng.uniform(-1.5, 2.7):.6g}")
+            vol = rng.choice([1.0, 0.2, 5.0])
+            fr = [rng.random() + 0.05 for _ in gases]
+            if "H2O(g)" in gases:
+                fr[gases.index("H2O(g)")] = 0.0
+            if sum(fr) == 0:
+                fr[0] = 1.0
+            parts = [f / sum(fr) * ptot for f in fr]
+            lines += ["GAS_PHASE 1", " -fixed_pressure" if kind == "fixedP" else " -fixed_volume"]
+            if kind == "fixedP":
+                lines.append(f" -pressure {ptot:.6g}")
+            lines += [f" -volume {vol}", f" -temperature {tc:.3f}"] + [f" {g} {p:.6g}" for g, p in zip(gases, parts)]
+            cx = dict(kind=kind, ptot=ptot, vol=vol)
+        if rng.random() < 0.5:
+            tc = rng.uniform(5, 150)
+            lines += ["REACTION_TEMPERATURE 1", f" {tc:.3f}"]
+        if rng.random() < 0.4:
+            lines += ["REACTION 1", f" {rng.choice(['CO2', 'NaCl', 'H2O', 'NH3'])} 1", f" {rng.choice([0.01, 0.1])} moles in {rng.randint(1, 3)} steps"]
+        lines += ["SAVE gas_phase 1"] + (["SAVE solution 1"] if rng.random() < 0.5 else [])
+        if k == 0:
+            lines += pl
+        lines += ["END"]
+        sims.append(cx)
+        prev = cx
+    hist["history"] = hist.get("history", 0) + 1
+    hist[f"history_sims_{nsim}"] = hist.get(f"history_sims_{nsim}", 0) + 1
+    hist[f"n_gases_{len(gases)}"] = hist.get(f"n_gases_{len(gases)}", 0) + 1
+    return dict(kind="history", db="phreeqc.dat", gases=gases, tc=tc, heads=heads, sims=sims, input="\n".join(lines) + "\n")
+
+
 def real_case(rng, hist):
     """one real input: dict(kind, db, gases, input, meta...)"""
     if rng.random() < 0.12:
         return bubble_case(rng, hist)
+    if rng.random() < 0.12:
+        return history_case(rng, hist)
     if rng.random() < 0.2:
         return kij_case(rng, hist)
     u = rng.random()
@@ -311,7 +365,7 @@ def real_case(rng, hist):
     knobs = []
     if kind in ("fixedV", "fixedP", "fixedV_eq"):
         db = "pitzer.dat" if rng.random() < 0.15 else "phreeqc.dat"
-        gases = list(rng.choice(PITZER_SETS if db == "pitzer.dat" else PR_SETS))
+        gases = list(rng.choice(PITZER_SETS if db == "pitzer.dat" else (BIG_SETS if rng.random() < 0.25 else PR_SETS)))
     elif kind == "ideal":
         db = "wateq4f.dat"
         gases = list(rng.choice(IDEAL_SETS))
